@@ -10,6 +10,7 @@ import Gpc.Driver.Str
 import Gpc.Driver.CaseMap
 import Gpc.Driver.TestFw
 import Gpc.Driver.Printf
+import Gpc.Driver.CaseFull
 open Gpc.Proto
 
 /-- state of the stateful models (one operation script at a time) -/
@@ -32,6 +33,7 @@ def dispatch (st : St) (toks : List String) : St × String :=
   | "arr" :: rest => let (a, o) := Gpc.Driver.arrStep st.arr rest; ({ st with arr := a }, o)
   | "tf" :: rest => (st, Gpc.Driver.tfStep rest)
   | "pf" :: rest => (st, Gpc.Driver.pfStep rest)
+  | "cf" :: rest => (st, Gpc.Driver.cfStep rest)
   | "case" :: rest => (st, Gpc.Driver.caseStep rest)
   | "str" :: rest => let (a, o) := Gpc.Driver.strStep st.str rest; ({ st with str := a }, o)
   | _ => (st, "bad-op")
